@@ -22,6 +22,7 @@ RULE = ("Definitions (Hypothesis): 1-4 observances, whole-minute offsets -12 h..
         "lists): parse calendar k of a pool whose calendars define the same TZID differently, VTIMEZONE before or after the VEVENT, "
         "switch provider; after each parse every zoned DTSTART of that calendar must have the offset its own definition gives. "
         "Non-trivial: definition with >= 2 observances (histories: >= 2 parses); distinct by hash.")
+RULE += " Rounds 7-8: extension properties (short and fold-length) inside observances; provider objects of the caller's own of the other kind than the process-wide one; inside the RC-K region the library must answer what dateutil.tz.tzical itself answers."
 ASSUMPTIONS = ["all offsets of one definition lie within a span of less than 24 h (datetime.dst()/utcoffset() cannot carry more)",
                "horizon 2037 for open-ended rules (both providers stop there)", "DTSTART of a rule-based observance is the rule's first occurrence"]
 REQUIRED_CLASSES = ["style:alternating", "style:rdates", "style:single", "has-until", "has-count", "unchained", "no-tzname", "history", "negative-dst",
